@@ -34,17 +34,20 @@ template <int DIM, int ORDER> struct PPWorld {
       { DS d; d.nc = 4; d.valid = false; d.b = {0.5}; d.C.resize(0, DIM); ds.push_back(d); }  // bad: one breakpoint
       ds.push_back(mk(3, 4, -1.0, 1.0, 4, false, 1));     // bad2: coefficient rows off by one
       ds.push_back(mk(3, ncbig2, -1.0, 1.0, 5, true, 0)); // d: even more coefficients
+      // e / e2: the data of `a` in a frame 1e9 away, differing from each other only by 2^-10 in the velocity coefficients: their relative
+      // Frobenius distance is ~1e-12, so an 'approximately equal' test would treat the update as a no-op (seeded change C11-m5)
+      { DS e = ds[0]; for (int sg = 0; sg < 3; ++sg) for (int k = 0; k < DIM; ++k) e.C(sg * e.nc, k) += 1073741824.0; ds.push_back(e); DS e2 = e; for (int sg = 0; sg < 3; ++sg) for (int k = 0; k < DIM; ++k) e2.C(sg * e2.nc + 1, k) += 0.0009765625; ds.push_back(e2); }
     }
     return ds;
   }
   std::unique_ptr<PP> X, Y; int mx = -1, my = -1;
   PPWorld() : X(new PP()), Y(new PP()) {}
-  int nops() const { return 20; }
+  int nops() const { return 22; }
   bool enabled(int) const { return true; }
   std::string opname(int op) const {
     static const char *n[] = {"X.update(a)", "X.update(a2 same shape)", "X.update(b more segments)", "X.update(c more coeffs)", "X.update(bad: 1 breakpoint)", "X.update(bad: row count)",
                               "X.evaluate(k=0)", "X.evaluate(k=1)", "X.evaluate(k=top)", "X.evaluate(k=beyond)", "X.evaluate(hinted,k=1)", "X.derivative(1).evaluate", "Y = X", "Y = PP(X) copy-ctor", "X = X",
-                              "swap roles X<->Y", "Y.evaluate(k=1)", "Y.update(b)", "X.derivative(2) kept as Y", "X.update(d even more coeffs)"};
+                              "swap roles X<->Y", "Y.evaluate(k=1)", "Y.update(b)", "X.derivative(2) kept as Y", "X.update(d even more coeffs)", "X.update(e = a in a frame 1e9 away)", "X.update(e2 = e with velocities + 2^-10)"};
     return n[op];
   }
   void apply(int op) {
@@ -65,6 +68,7 @@ template <int DIM, int ORDER> struct PPWorld {
     else if (op == 17) { Y->update(ds[2].b, ds[2].C, ds[2].nc); my = 2; }
     else if (op == 18) { if (mx >= 0 && mx < 100) { PP d = X->derivative(2); *Y = d; my = 100 + mx; } }
     else if (op == 19) { X->update(ds[6].b, ds[6].C, ds[6].nc); mx = 6; }
+    else if (op == 20 || op == 21) { int k = op - 13; X->update(ds[k].b, ds[k].C, ds[k].nc); mx = k; }
   }
   std::string canon() const { Canon c; canon_add(c, *X); canon_add(c, *Y); c.i(mx); c.i(my); return c.s; }
   static std::string check_obj(const PP &o, int m, const char *name, Canon &dg) {
@@ -98,16 +102,17 @@ template <int S, int D> struct SplineWorld {
       auto mk = [&](int N, double t0, uint64_t seed, double tscale) { Problem<D> p; p.N = N; p.t0 = t0; for (int i = 0; i < N; ++i) p.T.push_back(tscale * (1.0 + 0.5 * (i % 2))); set_generic_data(p, seed); return p; };
       ps.push_back(mk(2, 0.0, 11, 1.0)); ps.push_back(mk(2, 1.5, 12, 0.5)); ps.push_back(mk(4, -2.0, 13, 1.0)); ps.push_back(mk(1, 0.25, 14, 2.0));
       ps.push_back(mk(2, 125.5, 15, 1.0));   // p4: the SAME durations as p0, another start time and other data
+      { Problem<D> q = ps[0]; for (int i = 0; i <= q.N; ++i) for (int d = 0; d < D; ++d) q.P(i, d) += 1073741824.0; ps.push_back(q); q.bc.start_velocity(0) += 0.0009765625; q.bc.end_velocity(D - 1) -= 0.0009765625; ps.push_back(q); }   // p5 / p6: p0 in a frame 1e9 away; p6 differs from p5 by 2^-10 in two boundary velocities only
     }
     return ps;
   }
   std::unique_ptr<Sp> S1, S2; PP T; int m1 = -1, m2 = -1, mt = -1;
   SplineWorld() : S1(new Sp()), S2(new Sp()) {}
-  int nops() const { return 19; }
+  int nops() const { return 21; }
   bool enabled(int op) const { if (op == 16) return m1 >= 0; return true; }
   std::string opname(int op) const {
     static const char *n[] = {"S1.update(dur,p0)", "S1.update(dur,p1 same N)", "S1.update(dur,p2 N=4)", "S1.update(dur,p3 N=1)", "S1.update(tp,p0)", "S1.update(tp,p1)", "S1.update(tp,p2)", "S1.update(tp,p3)",
-                              "evaluate S1.getTrajectory()", "T = S1.getTrajectoryCopy()", "S2 = S1", "S2 = Sp(S1) copy-ctor", "S2.update(dur,p1)", "evaluate T", "evaluate S2.getTrajectory()", "S1 = S1", "S1.propagateGrad(dense)", "S1.update(dur,p4 same durations as p0, other start)", "S1.update(tp,p4)"};
+                              "evaluate S1.getTrajectory()", "T = S1.getTrajectoryCopy()", "S2 = S1", "S2 = Sp(S1) copy-ctor", "S2.update(dur,p1)", "evaluate T", "evaluate S2.getTrajectory()", "S1 = S1", "S1.propagateGrad(dense)", "S1.update(dur,p4 same durations as p0, other start)", "S1.update(tp,p4)", "S1.update(dur,p5 = p0 in a frame 1e9 away)", "S1.update(dur,p6 = p5 with two boundary velocities + 2^-10)"};
     return n[op];
   }
   static void touch(const PP &t) { for (int k = 0; k < 3; ++k) (void)t.evaluate(t.getStartTime() + 0.3 * t.getDuration(), k); }
@@ -125,6 +130,7 @@ template <int S, int D> struct SplineWorld {
     else if (op == 15) { Sp &r = *S1; *S1 = r; }
     else if (op == 17) { const auto &p = ps[4]; S1->update(p.T, p.P, p.t0, p.bc); m1 = 4; }
     else if (op == 18) { const auto &p = ps[4]; S1->update(p.timepoints(), p.P, p.bc); m1 = 4; }
+    else if (op == 19 || op == 20) { const auto &p = ps[op - 14]; S1->update(p.T, p.P, p.t0, p.bc); m1 = op - 14; }
     else if (op == 16) { int N = ps[m1].N; Mat g = Mat::Constant(M * N, D, 0.5); Eigen::VectorXd gt = Eigen::VectorXd::Constant(N, 0.25); (void)S1->propagateGrad(g, gt); }
   }
   std::string canon() const { Canon c; canon_add(c, *S1); canon_add(c, *S2); canon_add(c, T); c.i(m1); c.i(m2); c.i(mt); return c.s; }
@@ -153,7 +159,7 @@ template <int S, int D> struct SplineWorld {
 int main(int argc, char **argv) {
   Args a = parse_args(argc, argv);
   return supervise(a, [&](Ctx &c) {
-    const int depth = c.args.thorough() ? 20 : 8;
+    const int depth = c.args.thorough() ? 20 : (VWORLD < 3 ? 8 : 6);
 #if VWORLD == 0
     typedef PPWorld<2, Eigen::Dynamic> W; const char *tag = "PPolyND<2,Dynamic>";
 #elif VWORLD == 1
